@@ -25,7 +25,7 @@ LEVEL_TEXT = (
 )
 LEVEL_NOTE = (
     "Callback states are inspected inside the callback actor, on the live object. In finite-difference modes "
-    "only fun and the counters are judged (jac is not a user value there)."
+    "only fun and nfev are judged (jac and njev are not about user calls there)."
 )
 TECHNIQUE = "deterministic simulation: event log as ground truth, conservation of evaluation counters across stop/restart chains"
 DESIGN_REF = "DESIGN.md 4.3"
@@ -126,7 +126,7 @@ def execute(plan):
         ng = act.counts["jac"] if callable_jac else act.counts["approx_derivative"]
         if int(state.nfev) != act._n0 + nf:
             add("nfev_not_conserved", {"where": "callback state", "segment": seg_no[0], "nfev": int(state.nfev), "base": act._n0, "calls": nf})
-        if int(state.njev) != act._g0 + ng:
+        if callable_jac and int(state.njev) != act._g0 + ng:
             add("njev_not_conserved", {"where": "callback state", "segment": seg_no[0], "njev": int(state.njev), "base": act._g0, "calls": ng})
 
     maxiters = list(plan["stops"]) + [int(cfg["maxiter"])]
@@ -161,12 +161,12 @@ def execute(plan):
         ng = a.counts["jac"] if callable_jac else a.counts["approx_derivative"]
         if int(res.nfev) != a._n0 + nf:
             add("nfev_not_conserved", {"where": "result", "segment": si, "nfev": int(res.nfev), "checkpoint_nfev": a._n0, "calls_since": nf})
-        if int(res.njev) != a._g0 + ng:
+        if callable_jac and int(res.njev) != a._g0 + ng:
             add("njev_not_conserved", {"where": "result", "segment": si, "njev": int(res.njev), "checkpoint_njev": a._g0, "calls_since": ng})
         stats["or.conservation"] += 1
         # was some accepted step not the last trial of its line search (re-evaluation path)?
         reeval = False
-        for ev0, ev1, step, _dn in a.ls_log:
+        for ev0, ev1, step, *_rest in a.ls_log:
             if step is None:
                 continue
             trial = [e for e in a.events[ev0:ev1] if e[0] == "fun"]
